@@ -77,6 +77,8 @@ def Jet.const [OfNat K 0] (a : K) : Jet K := ⟨a, 0⟩
 /-- jet of `√`: `√(a+εb) = √a + ε b/(2√a)` (side condition `√a ≠ 0` in the theorems) -/
 def Jet.sqrt [Mul K] [Div K] [OfNat K 2] (sqrt : K → K) (a : Jet K) : Jet K :=
   ⟨sqrt a.re, a.eps / (2 * sqrt a.re)⟩
+/-- jet of `exp`: `exp(a+εb) = exp a + ε b exp a` -/
+def Jet.exp [Mul K] (exp : K → K) (a : Jet K) : Jet K := ⟨exp a.re, a.eps * exp a.re⟩
 end JetInst
 
 section Ops
@@ -342,6 +344,36 @@ def docGlobalDamperForce (c : K) (u : List K) : List K := u.map (fun ui => -c * 
 def mobPower : List K → List K → K
   | f :: fs, u :: us => f * u + mobPower fs us
   | _, _ => 0
+
+/-! ### CableSpring (`CableSpring.cpp`): tension law on the cable length `L` and its rate `Ldot` -/
+structure CableOut (K : Type) where
+  f : K
+  powerLoss : K
+  pe : K
+  x : K
+
+/-- `CableSpring::Impl::calcTensionAndPowerLoss` + `calcPotentialEnergy`; `calcStretch = max(0, L-L0)` -/
+def cableSpring (k c L0 L Ldot : K) : CableOut K :=
+  let x0 := L - L0
+  let x := kmax 0 x0
+  let pe := k * x * x / 2
+  if ¬ (x < 0) ∧ ¬ (0 < x) then ⟨0, 0, pe, x⟩ else
+  let f_stretch := k * x
+  let xdot := Ldot
+  let diss := f_stretch * c * xdot
+  let f_rate := kmax (-f_stretch) diss
+  ⟨f_stretch + f_rate, f_rate * xdot, pe, x⟩
+
+/-- the cable spring's energy as a function of the length alone -/
+def cablePE (k L0 L : K) : K := let x := kmax 0 (L - L0); k * x * x / 2
+
+/-- documented (CableSpring.h, Theory): `x=max(0,L-L0)`, `f_stretch = k*x`, `f_rate = max(-f_stretch, f_stretch*c*xdot)`,
+`f = f_stretch + f_rate`, `pe = k*x^2/2`, `powerLoss = f_rate * xdot` -/
+def docCableSpring (k c L0 L Ldot : K) : CableOut K :=
+  let x := kmax 0 (L - L0)
+  let f_stretch := k * x
+  let f_rate := kmax (-f_stretch) (f_stretch * c * Ldot)
+  ⟨f_stretch + f_rate, f_rate * Ldot, k * (x * x) / 2, x⟩
 end Mobility
 
 /-! ## Gravity -/
@@ -727,13 +759,17 @@ structure HertzOut (K : Type) where
   fNormal : K
   fric : V3 K
   velTangent : V3 K
+  /-- Hertz force `fH`, penetration rate `xdot`, velocity `vel` of surface 2's contact point in S1 -/
+  fH : K
+  xdot : K
+  vel : V3 K
 
 /-- `calcHertzContactForce` in the S1 frame: `normal_S1` away from surface 1, `origin_S1`, `depth`,
 relative velocity `(w12, v12)` of S2 in S1, `p12` origin of S2 in S1, effective radius `R`, correction `e`;
 `signif` is `SignificantReal` -/
 def hertzContact (sqrt : K → K) (signif vtrans : K) (mat1 mat2 : HertzMat K)
     (normal origin : V3 K) (depth : K) (p12 w12 v12 : V3 K) (R e : K) : HertzOut K :=
-  if depth ≤ 0 then ⟨false, V3.zero, V3.zero, 0, 0, 0, V3.zero, V3.zero⟩ else
+  if depth ≤ 0 then ⟨false, V3.zero, V3.zero, 0, 0, 0, V3.zero, V3.zero, 0, 0, V3.zero⟩ else
   let k1 := mat1.k23; let k2 := mat2.k23
   let c1 := mat1.c; let c2 := mat2.c
   let s1 := k2 / (k1 + k2)
@@ -750,7 +786,7 @@ def hertzContact (sqrt : K → K) (signif vtrans : K) (mat1 mat2 : HertzMat K)
   let velTangent := vel - velNormal
   let fHC := fH * (3 / 2) * c * xdot
   let fNormal := fH + fHC
-  if fNormal ≤ 0 then ⟨true, contactPt, V3.zero, 0, 0, 0, V3.zero, velTangent⟩ else
+  if fNormal ≤ 0 then ⟨true, contactPt, V3.zero, 0, 0, 0, V3.zero, velTangent, fH, xdot, vel⟩ else
   let forceH := smul fH normal
   let forceHC := smul fHC normal
   let potentialEnergy := 2 / 5 * fH * x
@@ -769,7 +805,7 @@ def hertzContact (sqrt : K → K) (signif vtrans : K) (mat1 mat2 : HertzMat K)
     else (V3.zero, 0)
   let forceLoss := forceHC + fricPair.1
   let forceTotal := forceH + forceLoss
-  ⟨true, contactPt, forceTotal, potentialEnergy, powerHC + fricPair.2, fNormal, fricPair.1, velTangent⟩
+  ⟨true, contactPt, forceTotal, potentialEnergy, powerHC + fricPair.2, fNormal, fricPair.1, velTangent, fH, xdot, vel⟩
 
 /-- `findRelativeVelocity(X_GS1, V_GS1, X_GS2, V_GS2)`: velocity of S2 in S1, expressed in S1 -/
 def findRelativeVelocity (X_FA : Pose K) (V_FA : Vel K) (X_FB : Pose K) (V_FB : Vel K) : Vel K :=
@@ -783,11 +819,13 @@ def findRelativeVelocity (X_FA : Pose K) (V_FA : Vel K) (X_FB : Pose K) (V_FB : 
 def frameVel (X : Pose K) (V : Vel K) (X_BS : Pose K) : Vel K := ⟨V.w, stationVel X V X_BS.p⟩
 
 /-- `CompliantContactSubsystemImpl::realizeSubsystemDynamicsImpl` for one contact force given in Ground:
-contact point `cp`, force on surface 2 `f` (pure force): returns (on body 1, on body 2) -/
-def compliantApply (cp f : V3 K) (X1 X2 : Pose K) : SpF K × SpF K :=
+contact point `cp`, spatial force on surface 2 at the contact point `(m, f)` (`F2cpt`; the moment is zero for the Hertz
+generators, non-zero for the elastic-foundation and brick generators): returns (on body 1, on body 2)
+`F2 = (m + r2 % f, f)`, `F1 = (-m + r1 % -f, -f)` -/
+def compliantApply (cp m f : V3 K) (X1 X2 : Pose K) : SpF K × SpF K :=
   let r1 := cp - X1.p
   let r2 := cp - X2.p
-  (⟨-(V3.zero : V3 K) + cross r1 (-f), -f⟩, ⟨V3.zero + cross r2 f, f⟩)
+  (⟨-m + cross r1 (-f), -f⟩, ⟨m + cross r2 f, f⟩)
 
 /-! ### SmoothSphereHalfSpaceForce -/
 structure SmoothParams (K : Type) where
@@ -871,6 +909,15 @@ def expNormal (exp : K → K) (d0 d1 d2 kvNorm maxNormalForce pz vz : K) : ExpOu
   let fz := fzElas + fzDamp
   let o1 : ExpOut K := if fz < 0 then ⟨fzElas, -fzElas, 0⟩ else ⟨fzElas, fzDamp, fz⟩
   if maxNormalForce < o1.fz then ⟨maxNormalForce - o1.fzDamp, o1.fzDamp, maxNormalForce⟩ else o1
+
+/-- `ExponentialSpringForceImpl::calcPotentialEnergy`, normal part: `energy = dataDyn.fzElas / d2`
+(`fzElas` as left by the clamps of `calcNormalForce`; the friction-spring term is zero without friction) -/
+def expPE (exp : K → K) (d0 d1 d2 kvNorm maxNormalForce pz vz : K) : K :=
+  (expNormal exp d0 d1 d2 kvNorm maxNormalForce pz vz).fzElas / d2
+
+/-- strain energy of the exponential spring as a function of the height alone: `d₁exp(−d₂(pz−d₀))/d₂`
+(what `expPE` is whenever the cap `maxNormalForce` is not active) -/
+def expElasticPE (exp : K → K) (d0 d1 d2 pz : K) : K := d1 * exp (-d2 * (pz - d0)) / d2
 
 /-- documented (ExponentialSpringForce.h): `fz = d₁exp(−d₂(pz−d₀)) (1 − cz vz)` -/
 def docExpNormal (exp : K → K) (d0 d1 d2 cz pz vz : K) : K := d1 * exp (-(d2 * (pz - d0))) * (1 - cz * vz)
